@@ -5,12 +5,12 @@ C16 — Names the checker accepts are exactly those the VM resolves.
 Model: `Types/Table.lean` (conf.CreateTypesTable / FieldsFromStruct, checker fieldType / methodType,
 vm fetch / FetchFn at the level of types, docgen's variable set; Spec of Go's selector rule =
 `reflField`, `goSelect`, `methodSet`).  The tie (harness/c16.go) compares every one of these functions
-with the real code and with `reflect` itself on the type zoo, under `Defects.asIs` = the flags of
+with the real code and with `reflect` itself on the type zoo, under `NDefects.asIs` = the flags of
 /repo's current HEAD.
 
-History: at the pinned snapshot (`Defects.asWas`) the code violated the property in several independent
+History: at the pinned snapshot (`NDefects.asWas`) the code violated the property in several independent
 ways; they were repaired in /repo by the `fix:` commits 08b47a6, 56f80b7, 64cd2bb, 2d52c5a, 38357c9, and
-`Defects.asIs` now has every flag repaired.  The full statements below are theorems about `asIs`.  The
+`NDefects.asIs` now has every flag repaired.  The full statements below are theorems about `asIs`.  The
 statements about `asWas` are kept as documentation of what was wrong and why: `…_witness` (the concrete
 failing inputs), `…_asWas_false` (the full statement failed), `…_partial` (what held nevertheless, in
 particular: the order-dependent merge loop never recorded a wrong type).
@@ -24,12 +24,12 @@ open ExprModel Table
 /-- **The types table does not depend on Go's map iteration order**: whatever order the merge loop
 `for name, typ := range FieldsFromStruct(f.Type)` happens to use at each level, the table holds the
 same entry for every name. -/
-theorem fieldsFrom_perm_invariant (d : Defects) (σ σ' : Table → Table) (hσ : IsOrder σ)
+theorem fieldsFrom_perm_invariant (d : NDefects) (σ σ' : Table → Table) (hσ : IsOrder σ)
     (hσ' : IsOrder σ') (t : Ty) (name : String) :
     (fieldsFromStruct d σ t).get? name = (fieldsFromStruct d σ' t).get? name := by
   rw [fieldsFromStruct_get? d σ hσ, fieldsFromStruct_get? d σ' hσ']
 
-theorem createTypesTable_perm_invariant (d : Defects) (σ σ' : Table → Table) (hσ : IsOrder σ)
+theorem createTypesTable_perm_invariant (d : NDefects) (σ σ' : Table → Table) (hσ : IsOrder σ)
     (hσ' : IsOrder σ') (e : Env) (name : String) :
     (createTypesTable d σ e).map (fun t => t.get? name) =
       (createTypesTable d σ' e).map (fun t => t.get? name) := by
@@ -52,7 +52,7 @@ theorem accepted_resolves {e : Env} {t dd : Ty} (h : StructEnv e t dd) (σ : Tab
     fetchEnv .asIs e n = some τ := by
   obtain ⟨g, hg, ha, hm, hτ⟩ := identType_ok hacc
   rw [h.entry .asIs σ hσ ht] at hg
-  have hmeth : g.method = false := by simpa [Defects.asIs] using hm
+  have hmeth : g.method = false := by simpa [NDefects.asIs] using hm
   cases hf : (methodSet t).find? (fun e => e.1 = n) with
   | some m =>
     obtain ⟨g', hg', hm', _⟩ := methodsAt_of_some (methodSet t) n (fieldsAt .asIs dd n) (by rw [hf]; rfl)
@@ -153,7 +153,7 @@ theorem accepted_call_resolves {e : Env} {t dd : Ty} (h : StructEnv e t dd) (σ 
         simp only [Option.map_none, ← h.hdd, hc, hr, hx, hmf]
         rcases isFuncType_some hp hfn with ⟨hk, _⟩ | hk
         · exact ⟨f.ty, by simp [hk]⟩
-        · exact ⟨f.ty, by simp [hk, Defects.asIs]⟩
+        · exact ⟨f.ty, by simp [hk, NDefects.asIs]⟩
 
 /-- **The checker's member type is Go's**: on a struct (through any number of pointers) the asIs
 `fieldType` accepts exactly the exported fields `reflect.FieldByName` resolves, with their types. -/
@@ -217,7 +217,7 @@ theorem method_accepted_resolves (k : Nat) (t : Ty) (n : String) (fn : Ty) (m : 
     simp [h1, this]
   | none =>
     rw [hm] at hacc
-    simp only [hs, Defects.asIs] at hacc
+    simp only [hs, NDefects.asIs] at hacc
     obtain ⟨fs, hc⟩ := Ty.kind_struct_iff.1 hs
     simp only [hc]
     cases hr : reflField t.derefOnce n with
@@ -234,7 +234,7 @@ theorem method_accepted_resolves (k : Nat) (t : Ty) (n : String) (fn : Ty) (m : 
 
 /-- **`docgen.CreateDoc` lists exactly the accepted top-level names** (plus the four word operators and
 the builtins). Holds for the code as it is and for the asIs code. -/
-theorem doc_lists_accepted (d : Defects) (tbl : Table) (hn : NodupKeys tbl) (n : String) :
+theorem doc_lists_accepted (d : NDefects) (tbl : Table) (hn : NodupKeys tbl) (n : String) :
     n ∈ docVars (some tbl) ↔ acceptedTop d tbl n ∨ n ∈ docOperators ∨ n ∈ docBuiltins := by
   rw [acceptedTop_iff]
   unfold docVars
@@ -246,7 +246,7 @@ theorem doc_lists_accepted (d : Defects) (tbl : Table) (hn : NodupKeys tbl) (n :
   · rintro ⟨g, hg, ha⟩
     exact ⟨(n, g), ⟨(Table.get?_eq_some_iff_mem hn n g).1 hg, by simp [ha]⟩, rfl⟩
 
-/-! ## the code as it was at the snapshot (`Defects.asWas`) -/
+/-! ## the code as it was at the snapshot (`NDefects.asWas`) -/
 
 /-- **Accepted ⇒ resolvable, at the snapshot** — for every name that is not a method of the
 environment (excludes `c16:method-accepted-as-identifier`, `c16:method-shadows-promoted-field`) and whose
@@ -316,7 +316,7 @@ theorem member_accepted_resolves_partial (k : Nat) (t : Ty) (n : String) (τ : T
     (hexported : ∀ f ∈ t.deref.fields, f.name = n → f.exported = true) :
     fetchTy .asWas t n = some τ := by
   unfold fieldType at hacc
-  simp only [Defects.asWas, if_true, hs, Bool.true_or, Bool.and_true] at hacc
+  simp only [NDefects.asWas, if_true, hs, Bool.true_or, Bool.and_true] at hacc
   have hemb : List.filter (fun x => x.anon) t.deref.fields = [] := hnoemb
   rw [hemb] at hacc
   cases hfind : t.deref.fields.find? (fun f => decide (f.name = n)) with
@@ -348,7 +348,7 @@ def fld (n : String) (t : Ty) : Field := .mk n t false true
 def emb (n : String) (t : Ty) : Field := .mk n t true true
 def priv (n : String) (t : Ty) : Field := .mk n t false false
 def envOf (t : Ty) : Env := { ty := some t }
-def tableOf (d : Defects) (t : Ty) : Table := (createTypesTable d id (envOf t)).getD []
+def tableOf (d : NDefects) (t : Ty) : Table := (createTypesTable d id (envOf t)).getD []
 
 def ZA : Ty := .named "main.ZA" [] (.struct [fld "X" tInt, fld "Y" .string])
 def ZB : Ty := .named "main.ZB" [] (.struct [fld "X" tFloat, fld "Z" .bool])
@@ -452,20 +452,20 @@ theorem member_witness :
 /-! ## the full statements: theorems for the current code, false at the snapshot -/
 
 /-- accepted (identifier) ⇒ resolvable with the assumed type, for all struct environments -/
-def accepted_resolves_goal (d : Defects) : Prop :=
+def accepted_resolves_goal (d : NDefects) : Prop :=
   ∀ (e : Env) (t dd : Ty), StructEnv e t dd → NamesWF dd →
     ∀ (σ : Table → Table), IsOrder σ → ∀ tbl, createTypesTable d σ e = some tbl →
       ∀ (n : String) (τ : Option Ty), identType d tbl n = .ok τ → fetchEnv d e n = some τ
 
 /-- every exported field Go resolves, not hidden by a method, is accepted with its type -/
-def resolves_accepted_goal (d : Defects) : Prop :=
+def resolves_accepted_goal (d : NDefects) : Prop :=
   ∀ (e : Env) (t dd : Ty), StructEnv e t dd → NamesWF dd →
     ∀ (σ : Table → Table), IsOrder σ → ∀ tbl, createTypesTable d σ e = some tbl →
       ∀ (n : String) (f : Field), reflField dd n = .found f → f.exported = true →
         methodByName t n = none → identType d tbl n = .ok (some f.ty)
 
 /-- accepted member ⇒ fetchable with the assumed type (receiver not of interface type) -/
-def member_accepted_resolves_goal (d : Defects) : Prop :=
+def member_accepted_resolves_goal (d : NDefects) : Prop :=
   ∀ (k : Nat) (t : Ty) (n : String) (τ : Ty), fieldType d (k + 1) t n = some τ →
     t.deref.kind ≠ .iface → fetchTy d t n = some τ
 
